@@ -124,7 +124,8 @@ Qed.
 Theorem denotes_parsed_pname m p n : pname_labels m p = Ok (n, true) -> flat_ok m p (n ++ [[]]) ->
   denotes (NParsed m p) (n ++ [[]]).
 Proof.
-  intros H F. unfold pname_labels in H. destruct (iter_labels_plabels _ _ _ _ _ _ _ H) as [ls [Hl Hp]].
+  intros H F.
+  destruct (iter_labels_plabels m PARSE_FUEL (pn_pos p) (pn_len p) [] n true H) as [ls [Hl Hp]].
   cbn [rev app] in Hl. subst ls. apply denotes_parsed; assumption.
 Qed.
 
